@@ -118,9 +118,11 @@ CanaryServiceGenerated(s) == s.net.hasSvc /\ ~s.net.noCanarySvc
 
 ShareIs(net, st) ==
   /\ (net.provIngress =>
-        /\ net.ing
-        /\ (st.traffic >= 0 => net.ingWeight = st.traffic)
-        /\ (st.match # "" => net.ingMatch # ""))
+        \* no canary Ingress at all is a canary share of exactly 0
+        \/ (st.traffic = 0 /\ st.match = "" /\ ~net.ing)
+        \/ /\ net.ing
+           /\ (st.traffic >= 0 => net.ingWeight = st.traffic)
+           /\ (st.match # "" => net.ingMatch # ""))
   /\ (net.provGateway =>
         /\ net.route
         /\ (st.traffic >= 0 /\ st.match = "" => net.rtCanaryW = st.traffic /\ net.rtStableW = 100 - st.traffic)
